@@ -65,7 +65,12 @@ def main(argv=None):
     extra = dict(subchecks=meta, bounds=mod.bounds(tier) if hasattr(mod, "bounds") else {})
     if hasattr(mod, "post"):
         mod.post(total, tier, seed)
-    return core.finish(pid, tier, seed, mod.LEVEL, total, t0, mod.REPLAY, mod.RULE, mod.ASSUMPTIONS,
+    rule = mod.RULE
+    if "order" in subs and (not only or "order" in only):
+        from . import order
+        rule += ("; call order: every prelude of library calls from the menu (group x operation x {structurally sparse numeric, dense numeric, symbolic} input), depth %d, each "
+                 "followed by the probe battery in a process forked from a fresh interpreter (%d preludes); a state = one prelude" % (2 if tier == "thorough" else 1, len(order.menu(tier))))
+    return core.finish(pid, tier, seed, mod.LEVEL, total, t0, mod.REPLAY, rule, mod.ASSUMPTIONS,
                        extra=extra, exhaustive=not total.counters.get("capped", 0))
 
 
